@@ -177,7 +177,7 @@ def main():
     texts += F.f_rule_pairs(both, consts=[0, 1, F.MASK], contexts=("stack",))[:: (3 if tier == "quick" else 1)]
     texts += F.f_mem((2,), deltas=[0, 32])
     texts += F.f_mem_consuming()
-    texts += F.f_rule_existing()[:: (24 if tier == "quick" else 2)]
+    texts += F.f_rule_existing()[:: (48 if tier == "quick" else 2)]
     texts += F.f_squares(sorted(set(ops) | {"MUL", "ADD", "EXP", "SUB", "DIV"}))
     texts += F.f_exh(2 if tier == "quick" else 3)
     texts += F.f_exh(3, vocab=F.V_EXH2)[:: (2 if tier == "quick" else 1)]
@@ -199,7 +199,7 @@ def main():
                 jobs.append(("doc", d, lo, lo + 20))
         tasks.append((o, jobs, 300))
     ub = gasol.optset("none", "gas", True, True, "ub-greedy")
-    tasks.append((ub, [("ub", t) for i, t in enumerate(texts) if i % (6 if tier == "quick" else 1) == 0], 300))
+    tasks.append((ub, [("ub", t) for i, t in enumerate(texts) if i % (12 if tier == "quick" else 1) == 0], 300))
     results, _ = pool.run(tasks, "checks.c16:job", job_timeout=600)
     stats = Stats()
     specs = decided = tightened = 0
